@@ -253,6 +253,82 @@ func main() {
 	}
 	sort.Ints(nilChecked)
 
+	// ---- package-level variables (other than the logger) referenced by any function of serialization.go:
+	// the model treats every Marshal*/UnMarshal*/converter as a pure function of its argument.
+	topVarsHere := map[*ast.Object]string{}
+	for _, d := range serFile.Decls {
+		if gd, ok := d.(*ast.GenDecl); ok && gd.Tok == token.VAR {
+			for _, sp := range gd.Specs {
+				for _, n := range sp.(*ast.ValueSpec).Names {
+					if n.Obj != nil {
+						topVarsHere[n.Obj] = n.Name
+					}
+				}
+			}
+		}
+	}
+	otherVars := map[string]bool{}
+	if matches, err := filepath.Glob(filepath.Join(repo, "src/middleware/types/*.go")); err == nil {
+		for _, f := range matches {
+			if strings.HasSuffix(f, "_test.go") || strings.HasSuffix(f, "/serialization.go") {
+				continue
+			}
+			pf, err := parser.ParseFile(token.NewFileSet(), f, nil, 0)
+			if err != nil {
+				continue
+			}
+			for _, d := range pf.Decls {
+				if gd, ok := d.(*ast.GenDecl); ok && gd.Tok == token.VAR {
+					for _, sp := range gd.Specs {
+						for _, n := range sp.(*ast.ValueSpec).Names {
+							otherVars[n.Name] = true
+						}
+					}
+				}
+			}
+		}
+	}
+	var sharedRefs []string
+	for _, d := range serFile.Decls {
+		fd, ok := d.(*ast.FuncDecl)
+		if !ok || fd.Body == nil || fd.Name.Name == "InitSerialzation" {
+			continue
+		}
+		skip := map[*ast.Ident]bool{}
+		ast.Inspect(fd.Body, func(n ast.Node) bool {
+			switch x := n.(type) {
+			case *ast.SelectorExpr:
+				skip[x.Sel] = true
+			case *ast.KeyValueExpr:
+				if id, ok := x.Key.(*ast.Ident); ok {
+					skip[id] = true
+				}
+			}
+			return true
+		})
+		seen := map[string]bool{}
+		ast.Inspect(fd.Body, func(n ast.Node) bool {
+			id, ok := n.(*ast.Ident)
+			if !ok || skip[id] {
+				return true
+			}
+			name := ""
+			if id.Obj != nil {
+				if nm, top := topVarsHere[id.Obj]; top {
+					name = nm
+				}
+			} else if otherVars[id.Name] {
+				name = id.Name
+			}
+			if name != "" && name != "logger" && !seen[name] {
+				seen[name] = true
+				sharedRefs = append(sharedRefs, fd.Name.Name+":"+name)
+			}
+			return true
+		})
+	}
+	sort.Strings(sharedRefs)
+
 	// ---- output
 	var sb strings.Builder
 	sb.WriteString("-- GENERATED by gen/cmd/c09facts from src/middleware/pb/x.pb.go and\n")
@@ -290,6 +366,12 @@ structure DerefSite where
 	sb.WriteString("]\n\n")
 	sb.WriteString("/-- True iff UnMarshalBlockHeader / UnMarshalBlock turn a nil header from the converter into an error. -/\n")
 	fmt.Fprintf(&sb, "def headerNilIsError : Bool := %v\ndef blockNilHeaderIsError : Bool := %v\n\n", headerNilIsError, blockNilHeaderIsError)
+	sb.WriteString("/-- Number of (function, package-level variable) pairs in serialization.go where a function other than\n    InitSerialzation references a package-level variable other than `logger`")
+	if len(sharedRefs) > 0 {
+		sb.WriteString(": " + strings.Join(sharedRefs, ", "))
+	}
+	sb.WriteString(". -/\n")
+	fmt.Fprintf(&sb, "def sharedStateRefs : Nat := %d\n\n", len(sharedRefs))
 	sb.WriteString(`/-- Schema as the protobuf runtime sees it (struct tags of x.pb.go):
     (message id, field number, kind, label) with kind 0 = varint, 2 = length-delimited;
     label 0 = optional, 1 = required, 2 = repeated.
@@ -326,8 +408,8 @@ structure DerefSite where
 			unguarded++
 		}
 	}
-	fmt.Fprintf(&sb, "-- SUMMARY {\"deref_sites\":%d,\"unguarded_optional\":%d,\"nil_checked\":%d,\"schema_fields\":%d,\"header_nil_is_error\":%v,\"block_nil_header_is_error\":%v}\n",
-		len(sites), unguarded, len(nilChecked), nfields, headerNilIsError, blockNilHeaderIsError)
+	fmt.Fprintf(&sb, "-- SUMMARY {\"deref_sites\":%d,\"unguarded_optional\":%d,\"nil_checked\":%d,\"schema_fields\":%d,\"header_nil_is_error\":%v,\"block_nil_header_is_error\":%v,\"shared_state_refs\":%d}\n",
+		len(sites), unguarded, len(nilChecked), nfields, headerNilIsError, blockNilHeaderIsError, len(sharedRefs))
 	fmt.Print(sb.String())
 }
 
